@@ -9,7 +9,10 @@ import (
 	"strings"
 )
 
-type jsonCodec struct{ rw value }
+type jsonCodec struct {
+	rw  value
+	pos int
+}
 
 func carrierStruct(v value, typeName string) (structure, bool) {
 	it, ok := v.(iface)
@@ -64,6 +67,17 @@ func init() {
 		c, ok := a[0].(*jsonCodec)
 		if !ok {
 			panic(engineErr("json.Decoder not created by the model"))
+		}
+		if db := docStreamOf(c.rw); db != nil {
+			if c.pos == db.malformedAt {
+				return fr.m.errIface("invalid character '{' after object key:value pair"), true
+			}
+			if c.pos >= len(db.docs) {
+				return fr.m.ioEOF(), true
+			}
+			fr.m.decodeDoc(db.docs[c.pos], a[1])
+			c.pos++
+			return iface{}, true
 		}
 		st, ok := carrierStruct(c.rw, "Body")
 		if !ok {
